@@ -158,7 +158,7 @@ def bits(x):
 class Sc:
     def __init__(self, line):
         f = line.split()
-        self.path, self.fn, self.mask = f[0], f[1], f[2]
+        self.path, self.fn, self.mask, self.mask_s = f[0], f[1], f[2][:3], f[2]
         self.top = None
         self.limit = None
         if "@" in f[3]:
@@ -195,7 +195,7 @@ class Sc:
         top = ("0" if self.top is None else "%d:%s" % (self.top[0], "a" if self.top[1] else "d")) + self.limit_s
         nodes = "/".join("+".join(map(str, n)) if n else "-" for n in self.nodes)
         rows = ",".join("%d.%s.%s.%s.%d" % (s, t[0], t[1], t[2], v) for (s, t, v) in self.rows) or "-"
-        return "%s %s %s %s %s %s" % (self.path, self.fn, self.mask, top, nodes, rows)
+        return "%s %s %s %s %s %s" % (self.path, self.fn, self.mask_s, top, nodes, rows)
 
 
 def parse_kv(s):
@@ -600,6 +600,20 @@ def rand_scenario(rng):
     if rng.random() < 0.25:   # ties for top-N and for MIN/MAX
         for r in rows:
             r[2] = rng.choice([0, 1, 1, 2, -1])
+    if rng.random() < 0.5:
+        # the request's tag projection in another order than the schema / a subset: extra non-group tags before the group
+        # tags, permutations; several groups then share the value of the tag that sits at the group tag's schema index
+        grouped = [i + 1 for i in range(3) if mask[i] == "1"]
+        others = [i + 1 for i in range(3) if mask[i] == "0"]
+        proj = grouped + rng.sample(others, rng.randint(0, len(others)))
+        rng.shuffle(proj)
+        if rng.random() < 0.5 and others:
+            proj = [t for t in proj if t in others] + [t for t in proj if t in grouped]
+        if proj:
+            mask += "p" + "".join(map(str, proj))
+            if rng.random() < 0.5 and rows:     # few distinct values in the non-group tags: groups share them
+                for r in rows:
+                    r[1] = tuple(r[1][i] if mask[i] == "1" else ("x" if rng.random() < 0.8 else r[1][i]) for i in range(3))
     nodes_s = "/".join("+".join(map(str, n)) if n else "-" for n in nodes)
     rows_s = ",".join("%d.%s.%s.%s.%d" % (r[0], r[1][0], r[1][1], r[1][2], r[2]) for r in rows) or "-"
     return "%s %s %s %s %s" % (fn, mask, top, nodes_s, rows_s)
@@ -833,8 +847,8 @@ class C10(vlib.Spec):
     def kind(self, line):
         f = line.split()
         if f[0] in ("row", "vec"):
-            ntags = f[2].count("1")
-            return "%s:groupby%d%s%s" % (f[0], ntags, ":top" if f[3].split("@")[0] != "0" else "", ":limit" if "@" in f[3] and f[0] == "row" else "")
+            ntags = f[2][:3].count("1")
+            return "%s:groupby%d%s%s%s" % (f[0], ntags, ":proj" if len(f[2]) > 3 and f[0] == "row" else "", ":top" if f[3].split("@")[0] != "0" else "", ":limit" if "@" in f[3] and f[0] == "row" else "")
         if f[0] in ("fn", "fns", "fnz", "ff"):
             return "%s:%s" % (f[0], f[1])
         if f[0] == "tnp":
